@@ -169,14 +169,14 @@ func c14Pattern(c *eng.Ctx) {
 			atoms := be.AtomNames()
 			switch name {
 			case "negated":
-				ok := len(atoms) == 1 && atoms[0] == "(p0[0] == 33)"
+				ok := len(atoms) == 1 && atomFirstByteIs(atoms[0], '!') && (strings.Contains(atoms[0], "(p0[0]") || strings.Contains(atoms[0], "(p0, "))
 				if ok {
 					eq, _, _ := eng.TruthTableEqual(be, atoms, func(e map[string]bool) bool { return e[atoms[0]] })
 					ok = eq
 				}
 				c.Check("R4", "negated", r.Pos(), ok, "negated ⇔ the pattern begins with '!'", be.String())
 			case "directoryOnly":
-				ok := len(atoms) == 1 && strings.HasSuffix(atoms[0], " == 47)") && strings.Contains(atoms[0], "(len(") && strings.Contains(atoms[0], " - 1)]")
+				ok := len(atoms) == 1 && atomLastByteIs(atoms[0], '/')
 				if ok {
 					eq, _, _ := eng.TruthTableEqual(be, atoms, func(e map[string]bool) bool { return e[atoms[0]] })
 					ok = eq
@@ -185,10 +185,10 @@ func c14Pattern(c *eng.Ctx) {
 			case "matchLeaf":
 				var abs, slash string
 				for _, a := range atoms {
-					if strings.HasSuffix(a, "[0] == 47)") {
+					if atomFirstByteIs(a, '/') {
 						abs = a
 					}
-					if strings.HasPrefix(a, "(strings.IndexByte(") && strings.HasSuffix(a, ", 47) >= 0)") {
+					if atomContainsByte(a, '/') {
 						slash = a
 					}
 				}
@@ -449,7 +449,7 @@ func c14VCS(c *eng.Ctx) {
 				statuses, _ := c.P.ConstsOfType(ignorePkg, "IgnoreStatus")
 				c.Check("R6", "vcs-ignored-directories-only", r.Pos(), v == statuses["IgnoreStatusIgnored"] && eng.HasAtom(g, "^p2$", true) && eng.HasAtom(g, `^&?synchronization/core/ignore\.vcsDirectoryNames\[synchronization/core/fastpath\.Base\(p1\)\]$`, true), "a path is VCS-ignored only if it is a directory whose base name is in the table", atomsShort(g))
 			} else {
-				c.Check("R6", "vcs-delegates", r.Pos(), strings.HasPrefix(eng.Render(res[0]), "invoke:Ignore(p0.ignorer, p1, p2)"), "everything else is decided by the wrapped ignorer with unchanged arguments", eng.Render(res[0]))
+				c.Check("R6", "vcs-delegates", r.Pos(), regexp.MustCompile(`^invoke:Ignore\(p0\.\w+, p1, p2\)`).MatchString(eng.Render(res[0])), "everything else is decided by the wrapped ignorer with unchanged arguments", eng.Render(res[0]))
 			}
 		}
 		// The VCS verdict wins: the wrapped ignorer is consulted only on ways
